@@ -61,6 +61,8 @@ def define_pipeline(data, shape, shard_index=0, num_shards=1):
   t = t.aggregate(targets.SumAgg(), input_keys=('x', 'y'), output_keys=('s', 'n'))
   if shape.get('second_agg'):
     t = t.add_aggregate(fn=rolling_stats.Counter().as_agg_fn(), input_keys='a', output_keys='cnt')
+    # ... and one whose state is a plain int (equal shards deliver equal, interned, states)
+    t = t.add_aggregate(fn=targets.RowCount(), input_keys='a', output_keys='rc')
   return t
 
 
